@@ -143,7 +143,10 @@ def parse_family(src):
                 r = q
                 while body[r] not in ";{":
                     r += 1
-                methods.append({"name": mm.group(1), "params": names, "has_body": body[r] == "{", "has_receiver": has_recv})
+                # `&mut T<'x>` parameters cannot be represented in MockFn::Inputs: the matcher is shown the documented
+                # placeholder `unimock::Impossible`, the answer function still receives the caller's own borrow
+                imposs = [bool(re.match(r"(?:mut\s+)?\w+\s*:\s*&\s*(?:'\w+\s+)?mut\s+[\w:]+\s*<[^>]*'", x)) for x in plist[1 if has_recv else 0:]]
+                methods.append({"name": mm.group(1), "params": names, "has_body": body[r] == "{", "has_receiver": has_recv, "impossible": imposs})
                 k = r
                 continue
             k += 1
@@ -205,7 +208,8 @@ def unit_generated_forwarding(eng_unused, tier, prop, root=None):
         recv, inputs = call.argv[0], call.argv[1]
         k = eng.decide(call.m, ("eval", call.fr.bb), [eng.named("eval.outcome", 64) == i for i in range(4)])
         n = len(leaves(inputs))
-        mockfn = call.callee[call.callee.find("eval::<") + 7:].rsplit(">", 1)[0].split(",")[-1].strip()
+        from .mirsym.parse import split_top as _st
+        mockfn = _st(call.callee[call.callee.find("eval::<") + 7:].rsplit(">", 1)[0])[-1].strip()
         call.m.event("eval", mockfn, ident(recv), tuple(leaves(inputs)), k)
         if k == 0:
             o = Adt("Output", None)
@@ -356,8 +360,9 @@ def unit_generated_forwarding(eng_unused, tier, prop, root=None):
                     a.tag = ("leaf", f"arg:{pn}")
                     args.append(a)
                 paths = u.explore(f, args, note=f"[{trait}::{name}]")
-                want_args = tuple(f"arg:{pn}" for pn in meth["params"])
-                back = tuple(f"r{i}" for i in range(np))
+                imposs = meth.get("impossible") or [False] * len(meth["params"])
+                want_args = tuple(("FnItem" if imposs[i] else f"arg:{pn}") for i, pn in enumerate(meth["params"]))
+                back = tuple((f"arg:{pn}" if imposs[i] else f"r{i}") for i, pn in enumerate(meth["params"]))
                 um = spec["unmock"][idx] if idx < len(spec["unmock"]) else None
                 seen = set()
                 for p in paths:
@@ -369,8 +374,9 @@ def unit_generated_forwarding(eng_unused, tier, prop, root=None):
                     if len(ev) != 1:
                         continue
                     _, mockfn, rid, ins, k = ev[0]
+                    state.setdefault("mockfn_by_method", {})[f"{trait}::{name}"] = mockfn
                     seen.add(k)
-                    u.must_be_true("C05.evaluates-its-own-mock-entry-point", re.search(r"(^|::|Generic)" + re.escape(name) + r"(<.*>)?$", mockfn) is not None, dict(ctx, mockfn=mockfn))
+                    u.must_be_true("C05.evaluates-its-own-mock-entry-point", re.search(r"(^|::|Generic|Hidden__)" + re.escape(name) + r"(<.*>)?$", mockfn) is not None, dict(ctx, mockfn=mockfn))
                     u.must_be_true("C05.receiver-forwarded", rid == "the_receiver", dict(ctx, got=rid))
                     u.must_be_true("C05.arguments-forwarded-in-declaration-order", tuple(ins) == want_args, dict(ctx, got=ins, want=want_args))
                     ac = events(p, "answer_call")
@@ -407,6 +413,35 @@ def unit_generated_forwarding(eng_unused, tier, prop, root=None):
                     flag = any("default_impl" in c for c, _ in all_callees(eng, infos[0]))
                     u.must_be_true("C07.default-impl-flag-exactly-for-provided-methods", flag == meth["has_body"], {"method": f"{trait}::{name}", "flag": flag})
                 checked += 1
+        # generic mock entry points: `with_types::<trait-level args.., method-level args..>()` names the instantiation the
+        # generated method evaluates (argument ORDER: a swap silently registers the clause for another instantiation)
+        fsrc = open(os.path.join(crate, "src", "lib.rs")).read()
+        for mh in re.finditer(r"pub fn (\w+_with_types)\(\) -> impl Sized \{\s*(\w+)Mock::(\w+)\s*\.with_types::<([^>]*)>\(\)", fsrc):
+            helper, trait, meth, targs = mh.group(1), mh.group(2), mh.group(3), [x.strip() for x in mh.group(4).split(",")]
+            hf = [g for g in eng.fns if g.short == helper]
+            u.must_be_true("C05.with_types-helper-found", len(hf) == 1, {"helper": helper})
+            if len(hf) != 1:
+                continue
+            from .mirsym.parse import split_top as _st
+            ret = hf[0].ret or ""
+            got = [x.strip() for x in _st(ret[ret.find("<") + 1:ret.rfind(">")])] if "<" in ret else []
+            u.must_be_true("C05.with_types-instantiates-in-the-order-trait-generics-then-method-generics", got == targs, {"helper": helper, "returns": ret, "asked": targs})
+            # ... and the generated method evaluates <trait generics.., method generics..> in that same order
+            td = re.search(r"pub trait " + trait + r"<([^>{]*)>", fsrc)
+            md = re.search(r"fn " + meth + r"<([^>(]*)>\(", fsrc[fsrc.find("pub trait " + trait):])
+            decl = [x.split(":")[0].strip() for x in (td.group(1).split(",") if td else [])] + [x.split(":")[0].strip() for x in (md.group(1).split(",") if md else [])]
+            ev = state.get("mockfn_by_method", {}).get(f"{trait}::{meth}")
+            if ev:
+                eargs = [x.strip() for x in _st(ev[ev.find("<") + 1:ev.rfind(">")])] if "<" in ev else []
+                u.must_be_true("C05.generated-method-evaluates-the-instantiation-of-its-own-generics-in-declaration-order", eargs == decl, {"method": f"{trait}::{meth}", "evaluates": ev, "declared": decl})
+        # associated constants given in the attribute: BOTH generated impls (for Unimock and for the delegation helper) define
+        # them with the attribute's value - a default body reading Self::K must see the same value as a direct call
+        for mh in re.finditer(r"#\[unimock\(([^\]]*?const [^\]]*)\)\]\s*pub trait (\w+)", fsrc):
+            attrs, trait = mh.group(1), mh.group(2)
+            for cm in re.finditer(r"const (\w+): (\w+) = (\w+);", attrs):
+                cname, cty, cval = cm.groups()
+                vals = re.findall(r"(?m)^const (?:\w+::)*<impl at [^>]*>::" + cname + r": " + cty + r" = const (\w+?)(?:_" + cty + r")?;", mir)
+                u.must_be_true("C15.attribute-consts-defined-by-both-generated-impls-with-the-attribute-value", vals == [cval, cval], {"trait": trait, "const": cname, "values_in_impls": vals, "attribute": cval})
         u.witness(f"{checked} generated methods explored", [z3.BoolVal(checked >= 20)])
     finally:
         eng.callback_hook = None
